@@ -35,7 +35,8 @@ GOLIBS = "github.com/AdguardTeam/golibs"
 CHECKS = {
     "C08": dict(pkg="./sim/c08", race=False, quick=600000, thorough=30000000),
     "C09": dict(pkg="./sim/c09", race=False, quick=2000000, thorough=200000000, checkptr=True, aslimit=True),
-    "C10": dict(pkg="./sim/c10", race=True, quick=120000, thorough=6000000),
+    "C10": dict(pkg="./sim/c10", race=True, quick=120000, thorough=6000000,
+                autoyield=dict(call="simPoint(%q, nil)", files=["cache/data.go"])),
     "C11": dict(pkg="./sim/c11", race=False, quick=1500000, thorough=150000000),
     "C15": dict(pkg="./sim/c15", race=False, quick=2000000, thorough=200000000),
     "C17": dict(pkg="./sim/c17", race=True, quick=120000, thorough=6000000,
@@ -43,7 +44,8 @@ CHECKS = {
     "C18": dict(pkg="./sim/c18", race=True, quick=200000, thorough=8000000,
                 autoyield=dict(call="simPoint(%q)", simfile="service:service",
                                files=["service/signal.go", "service/refreshworker.go"])),
-    "C19": dict(pkg="./sim/c19", race=True, quick=60000, thorough=2400000),
+    "C19": dict(pkg="./sim/c19", race=True, quick=60000, thorough=2400000,
+                autoyield=dict(call="simPoint(%q, nil)", files=["logutil/slogutil/jsonhybrid.go"])),
     "C20": dict(pkg="./sim/c20", race=True, quick=40000, thorough=1200000,
                 autoyield=dict(call="simPoint(%q)", simfile="netutil/httputil:httputil",
                                files=["netutil/httputil/logmw.go", "netutil/httputil/httputil.go",
@@ -217,7 +219,7 @@ def run_single(binary, cfg, tmp, name, seed, run, tier, known_sigs):
     extra = dict(
         VERIF_MODE="explore", VERIF_SEED=str(seed), VERIF_FROM=str(run), VERIF_TO=str(run + 1),
         VERIF_STRIDE="1", VERIF_TIER=tier, VERIF_RECHECK="0", VERIF_KNOWN="\n".join(known_sigs),
-        VERIF_WATCHDOG_S="12",
+        VERIF_WATCHDOG_S="30",
     )
     for suffix in (".json", ".json.hang"):
         try:
@@ -529,6 +531,19 @@ def drive(args, check_id, cfg, tier, seed, repo, tmp, t_start):
         dst = os.path.join(dst_dir, os.path.basename(rpath))
         shutil.copyfile(rpath, dst)
         ok, exact, detail = confirm_replay(binary, cfg, tmp, dst, tier, v["class"], v["site"])
+        if not ok:
+            # Race verdicts can depend on the race detector's bounded shadow
+            # memory: if the minimised tape does not reproduce in a fresh
+            # process, fall back to the tape as it was found.
+            with open(dst) as f:
+                rf = json.load(f)
+            if rf.get("unshrunk_tape"):
+                rf["tape"] = rf.pop("unshrunk_tape")
+                rf["note"] = "not minimised: the minimised tape did not reproduce in a fresh process"
+                with open(dst, "w") as f:
+                    json.dump(rf, f, indent=1)
+                ok, exact, detail2 = confirm_replay(binary, cfg, tmp, dst, tier, v["class"], v["site"])
+                detail += "; unshrunk tape: " + detail2
         if not ok:
             harness_errors.append("violation %s found but its replay file %s does not reproduce it (%s): %s" % (
                 sig, dst, detail, v["message"][:1500]))
